@@ -1,7 +1,7 @@
 """C17 — work queue: one worker at a time, each item handed out once, none stranded (structural part)."""
 from core import strip, is_field, order_ge, key_str
 from facts import AnalysisBroken
-from rules import (check_init, nodeset, ev, Unevaluable, atom_from, reach, ret_const, is_var_load)
+from rules import (field_load, through_local, check_init, nodeset, ev, Unevaluable, atom_from, reach, ret_const, is_var_load)
 
 EXPLANATION = (
     "Decides the structure of the in/out counting protocol: push announces the item with one atomic add-and-fetch on in_count "
@@ -15,7 +15,7 @@ W = "work_queue"
 
 
 def fld(field):
-    return lambda n: (n.k == "ImplicitCastExpr" and n.ck == "LValueToRValue" and strip(n).k == "MemberExpr" and strip(n).field == field and strip(n).rec == W)
+    return field_load(field, W)
 
 
 def run(ctx):
@@ -126,7 +126,7 @@ def run(ctx):
             if reach(g, [s.node], atom_from([(ispop, 0)]), start=pops[0], barrier=again):
                 bad = bad or "out_count is incremented although nothing was popped"
         for s in inc:
-            if g.guarded(s.node, lambda leaf, pol: leaf.contains(pops[0]) and pol is True) is not None:
+            if g.guarded(s.node, lambda leaf, pol: pol is True and (leaf.contains(pops[0]) or through_local(g, leaf).contains(pops[0]))) is not None:
                 bad = bad or "out_count is incremented on a path that has not popped an item"
         if not inc or not reach(g, [s.node for s in inc], atom, start=pops[0], barrier=again):
             bad = bad or "a popped item is not counted in out_count"
